@@ -433,6 +433,10 @@ func propC12(c *Ctx) {
 	defer func() {
 		rpu := c.Rule("param-used", "every named parameter that carries compile state (module store, symbol table, options, module map, compiler, constant pool) of an unexported, directly called function is used: the module store and module map handed down to a compiler are not dropped on the way (module indexes stay in step with the VM's module cache)", 8)
 		ruleParamUsed(c, rpu, func(p string) bool { return p == modPath })
+		rmo := c.Rule("module-cache-opaque", "a value read from the VM's module cache is only compared with nil, stored or copied: whether a module's body runs depends on the slot being empty, not on what the module returned", 1)
+		if vf := getVMFacts(c, rmo); vf != nil {
+			ruleModuleCacheOpaque(c, rmo, vf)
+		}
 		rmk := c.Rule("map-key-agree", "every string-keyed map field of the package is accessed with keys of one form: a module stored under its name is looked up under that same name", 3)
 		ruleMapKeyAgree(c, rmk, func(p string) bool { return p == modPath })
 	}()
